@@ -223,7 +223,7 @@ func suiteDiffReport(c *Ctx) error {
 							extra[k] = v
 						}
 					}
-					c.Violate("C09", cls, fmt.Sprintf("pair %d, %s / %s: %s", pi, m.OldFunction, m.NewFunction, d), extra)
+					c.Violate(cls[:3], cls, fmt.Sprintf("pair %d, %s / %s: %s", pi, m.OldFunction, m.NewFunction, d), extra)
 				}) {
 					c.Count("zipper_pairs_checked")
 				}
